@@ -89,6 +89,30 @@ def make_module(rng, nf, sized=False, helpers=True):
     return m
 
 
+def permute_funcs(m, shift=1):
+    """The same module with its defined functions in rotated order (indices of calls, exports, element segments and names follow): bodies
+    without calls keep their bytes and get another index."""
+    import copy
+    m2 = copy.deepcopy(m)
+    nimp = sum(1 for im in m.get("imports", []) if im["kind"] == "func")
+    nf = len(m["funcs"])
+    newidx = lambda i: i if i < nimp else nimp + (i - nimp + shift) % nf
+    m2["funcs"] = [None] * nf
+    for k, f in enumerate(copy.deepcopy(m["funcs"])):
+        f["body"] = [["call", newidx(ins[1])] if ins[0] == "call" else ins for ins in f["body"]]
+        m2["funcs"][(k + shift) % nf] = f
+    for x in m2.get("exports", []):
+        if x["kind"] == "func":
+            x["idx"] = newidx(x["idx"])
+    for e in m2.get("elems", []):
+        e["funcs"] = [newidx(i) for i in e["funcs"]]
+    if "names" in m2:
+        m2["names"] = {str(newidx(int(k))): v_ for k, v_ in m["names"].items()}
+    if m2.get("start") is not None:
+        m2["start"] = newidx(m2["start"])
+    return m2
+
+
 NIMP = 6
 
 
@@ -390,7 +414,18 @@ def main():
                     if not os.path.exists(p2) or open(p1, "rb").read() != open(p2, "rb").read():
                         devs.append(("options:not-reproducible", "%s differs between -t %d and another thread count" % (f, o["t"])))
                         break
-            for x in (d, d2, base):
+            # the directory already holds the output of an earlier version of the module (same functions, other order): what this run
+            # writes depends on its input and options alone
+            d3 = os.path.join(wd, "o%d-over" % j)
+            rc5, _, _ = translate(d3, permute_funcs(m), rm, o)
+            rc6, _, _ = translate(d3, m, rm, o) if rc5 == 0 else (1, "", "")
+            if rc6 == 0:
+                for f in sorted(names):
+                    p1, p3 = os.path.join(d, f), os.path.join(d3, f)
+                    if not os.path.exists(p3) or open(p1, "rb").read() != open(p3, "rb").read():
+                        devs.append(("options:depends-on-earlier-output", "%s differs when the directory held the output of an earlier version of the module" % f))
+                        break
+            for x in (d, d2, d3, base):
                 shutil.rmtree(x, ignore_errors=True)
             return devs
         for j, devs in enumerate(pmap(job, range(len(jobs)))):
